@@ -2291,7 +2291,7 @@ pub(crate) fn store_meta_block<Alloc: BrotliAlloc, Cb>(
         }
         pos = pos.wrapping_add(cmd.copy_len() as usize);
         if cmd.copy_len() != 0 {
-            prev_byte2 = input[(pos.wrapping_sub(2) & mask)];
+            prev_byte2 = if pos >= 2 { input[(pos.wrapping_sub(2) & mask)] } else { 0 };
             prev_byte = input[(pos.wrapping_sub(1) & mask)];
             if cmd.cmd_prefix_ as i32 >= 128i32 {
                 let dist_code: usize = cmd.dist_prefix_ as usize & 0x03ff;
